@@ -447,18 +447,36 @@ def gen_models(tier):
     cfgm = "AsCore_GenM.cfg" if tier == "quick" else "AsCore_GenM4.cfg"
     mc = tlc.run("AsCore_Gen", cfg, workers=4, timeout=1500, mem="6g")
     mcm = tlc.run("AsCore_Gen", cfgm, workers=4, timeout=1500, mem="6g")
+    mcd = tlc.run("AsCore_Gen", "AsCore_GenD.cfg", workers=1, timeout=600, mem="2g")
     nsim = 40 if tier == "quick" else 2500
     sim = tlc.run("AsCore_Gen", "AsCore_Sim.cfg", workers=2 if tier == "quick" else 4, simulate=nsim, depth=70,
                   timeout=900, mem="4g")
-    return (cfg, cfgm), mc, mcm, sim
+    return (cfg, cfgm), mc, mcm, mcd, sim
+
+
+def _restore_twice_in_body(prog):
+    """classification for known_findings (C12-variable-local-in-expansion): two RESTORE lines directly inside one
+    MACRO / REPT body of the source text"""
+    counts = []
+    for st in prog:
+        if st["k"] in ("MACRO", "REPT"):
+            counts.append(0)
+        elif st["k"] == "ENDM" and counts:
+            counts.pop()
+        elif st["k"] == "RESTORE" and counts:
+            counts[-1] += 1
+            if counts[-1] >= 2:
+                return True
+    return False
 
 
 def generated(rep, bld, tier, models=None):
     """(M)+(G)+(V) on the bounded family of AsCore_MC: TLC checks the forward model against StmtSucc and exports every
     complete behaviour with the outcome it predicts; the programs are rendered, assembled with hooks, the outcome
     is compared and the recorded executions are validated by AsCore_Trace like the golden ones."""
-    (cfg, cfgm), mc, mcm, sim = models if models is not None else gen_models(tier)
-    for what, r in (("AsCore_Gen(%s)" % cfg, mc), ("AsCore_Gen(%s)" % cfgm, mcm), ("AsCore_Gen simulate", sim)):
+    (cfg, cfgm), mc, mcm, mcd, sim = models if models is not None else gen_models(tier)
+    for what, r in (("AsCore_Gen(%s)" % cfg, mc), ("AsCore_Gen(%s)" % cfgm, mcm), ("AsCore_Gen(AsCore_GenD.cfg)", mcd),
+                    ("AsCore_Gen simulate", sim)):
         tlc.must(r, what)
         if r.violation:
             raise CheckError("the composed design violates its own invariants (%s): %s" % (what, r.violation[:600]))
@@ -466,7 +484,7 @@ def generated(rep, bld, tier, models=None):
     rep.model("AsCore_Gen(%s)" % cfgm, mcm)
     behs = [b for (tag, b) in mc.printed if tag == "BEH"]
     behm = [b for (tag, b) in mcm.printed if tag == "BEH"]
-    nall = len(behs) + len(behm)
+    nall = len(behs) + len(behm) + len(mcd.printed)
     if tier == "quick":
         # flat family: every program of up to 2 lines, a seeded fifth of the 3-line programs; macro family: a seeded
         # 40 % (thorough: one line more each; flat: all up to 3 lines + a seeded 35 % of the 4-line programs, macro: all)
@@ -476,7 +494,7 @@ def generated(rep, bld, tier, models=None):
     else:
         r = rng("ascore-gen")
         behs = [b for b in behs if len(b["prog"]) <= 3 or r.random() < 0.35]
-    behs += behm
+    behs += behm + [b for (tag, b) in mcd.printed if tag == "BEH"]      # + the directed programs (regression seeds)
     seen = set(json.dumps(b["prog"]) for b in behs)
     for (tag, b) in sim.printed:
         key = json.dumps(b["prog"])
@@ -497,7 +515,7 @@ def generated(rep, bld, tier, models=None):
         b, src = behs[o["idx"]], srcs[o["idx"]]
         rep.evaluated()
         rep.distinct("ascore:" + src, any(st["k"] not in ("EMIT", "LAB") for st in b["prog"]))
-        key = {"kind": "ascore-gen"}
+        key = {"kind": "ascore-gen", "restore_twice_in_body": _restore_twice_in_body(b["prog"])}
         if o["timeout"] or o["sig"] is not None or o["rc"] not in (0, 2):
             rep.violation("assembler did not end normally (rc=%s signal=%s) on a program of the composed model"
                           % (o["rc"], o["sig"]), case=b["prog"], files={"a.asm": src}, key=key)
@@ -513,8 +531,9 @@ def generated(rep, bld, tier, models=None):
                           % (b["image"][:12], (o["image"] or [])[:12]), case=b["prog"], files={"a.asm": src}, key=key)
             nbad += 1
         elif o["errs"] is not None and (o["errs"], o["warns"]) != (b["errs"], b["warns"]):
-            rep.drift("generated program: model predicts %d errors / %d warnings, asl counted %s / %s: %r"
-                      % (b["errs"], b["warns"], o["errs"], o["warns"], src))
+            rep.drift("generated program%s: model predicts %d errors / %d warnings, asl counted %s / %s: %r"
+                      % (" (known: C12-variable-local-in-expansion)" if key["restore_twice_in_body"] else "",
+                         b["errs"], b["warns"], o["errs"], o["warns"], src))
             nbad += 1
         if o["events"] is not None:
             frags.append({"name": "gen#%d" % o["idx"], "text": o["events"], "n": o["n"], "src": src})
